@@ -320,6 +320,21 @@ func harnessIntrinsic(short string) intrinsicFn {
 			}
 			return tTrue
 		}
+	case "vTime":
+		// vTime(ns): a time.Time at ns nanoseconds of the model clock (0 = the zero Time)
+		return func(x *Exec, _ *ssa.Function, a []Value) Value { return x.mkTime(a[0].(*Term)) }
+	case "vTimeNs":
+		return func(x *Exec, _ *ssa.Function, a []Value) Value { return timeNs(a[0]) }
+	case "vLastNow":
+		// the instant returned by the most recent time.Now of this path (model clock); Now() if none yet
+		return func(x *Exec, f *ssa.Function, a []Value) Value {
+			if x.lastNow == nil {
+				return x.timeNow(nil)
+			}
+			return x.mkTime(x.lastNow)
+		}
+	case "vDuration":
+		return func(x *Exec, f *ssa.Function, a []Value) Value { return a[0] }
 	case "vEncode":
 		// vEncode(kind, s): uninterpreted encoder; the result is an opaque token remembering s
 		return func(x *Exec, _ *ssa.Function, a []Value) Value {
@@ -641,7 +656,7 @@ func (x *Exec) unwrapList(iv *IfaceV) []Value {
 		return eo.Wraps
 	}
 	if iv.T != nil {
-		if m := x.prog.LookupMethod(iv.T, nil, "Unwrap"); m != nil {
+		if m := x.findMethod(iv.T, nil, "Unwrap"); m != nil {
 			r := x.call(m, []Value{iv.V}, nil)
 			switch r := r.(type) {
 			case *IfaceV:
@@ -667,7 +682,7 @@ func (x *Exec) errorsIs(err, tgt Value) bool {
 		return true
 	}
 	if iv.T != nil {
-		if m := x.prog.LookupMethod(iv.T, nil, "Is"); m != nil {
+		if m := x.findMethod(iv.T, nil, "Is"); m != nil {
 			if r, ok := x.call(m, []Value{iv.V, tv}, nil).(*Term); ok && x.branch(r) {
 				return true
 			}
@@ -755,13 +770,13 @@ func (x *Exec) fmtValue(out *StrV, verb byte, a Value) {
 		if e, isErr := x.isErrorValue(iv); isErr {
 			if eo, ok := e.V.(*ErrObj); ok {
 				lit(eo.Msg)
-			} else if m := x.prog.LookupMethod(e.T, nil, "Error"); m != nil {
+			} else if m := x.findMethod(e.T, nil, "Error"); m != nil {
 				x.fmtValue(out, 's', x.call(m, []Value{e.V}, nil))
 			}
 			return
 		}
 		if iv.T != nil {
-			if m := x.prog.LookupMethod(iv.T, nil, "String"); m != nil && (verb == 'v' || verb == 's') {
+			if m := x.findMethod(iv.T, nil, "String"); m != nil && (verb == 'v' || verb == 's') {
 				x.fmtValue(out, 's', x.call(m, []Value{iv.V}, nil))
 				return
 			}
